@@ -339,9 +339,12 @@ func (g *TemplateGenerator) getTemplate(ctx context.Context) (string, *gojsonsch
 			continue
 		}
 		var remoteTemplate *RemoteTemplate
-		if cachedRemoteTemplate, ok := g.remoteTemplateCache[g.templateName]; !ok {
+		// The schema URL is part of the key: two output files may use the same
+		// template with different template-schema values.
+		cacheKey := g.templateName + "\x00" + g.templateSchema
+		if cachedRemoteTemplate, ok := g.remoteTemplateCache[cacheKey]; !ok {
 			remoteTemplate = NewRemoteTemplate(g.templateName, g.templateSchema)
-			g.remoteTemplateCache[g.templateName] = remoteTemplate
+			g.remoteTemplateCache[cacheKey] = remoteTemplate
 		} else {
 			remoteTemplate = cachedRemoteTemplate
 		}
